@@ -48,7 +48,7 @@ CHECKS = {
                 note="Trusted: Lean kernel + standard axioms. The theorems are about the Lean models, tied to the code by exact comparison on ALL graphs of the scope plus random larger ones (0 mismatches required); Tarjan's algorithm and _imm_doms are not proved a priori: SCC answers are validated per instance by the verified validator, immediate dominators are compared with the definition immRef on top of the proved dominator tables. For the dominator model the fuel provably suffices (doms_total / postDoms_total); the other theorems are up to the models' fuel (that it suffices is observed, not proved)."),
     "C16": dict(cat="proof", tech="Lean 4: model of both iterators compared order-exactly with the code; specification predicates with soundness theorems judged on every real enumeration",
                 text="Scfg/Model/Iter.lean models SCFG.__iter__ and region_view_iterator; for every (sub)graph at every depth, before and after every stage, the real enumerations are compared with the model and judged by iterSpecOK / viewSpecOK, whose meaning Scfg.C16.iterSpecOK_sound / viewSpecOK_sound prove.", ref="§7 C16",
-                note="Trusted: Lean kernel + standard axioms; exporter. Scfg.C16.viewIter_closed is a-priori (every hierarchy): whenever the view model answers, the answer is duplicate-free, contains members only, contains the head and is closed under the view's successors, hence holds every member reachable from the head; that every member is so reachable, and the same for __iter__ (no a-priori theorem), is judged per instance by the specification deciders on the real enumerations."),
+                note="Trusted: Lean kernel + standard axioms; exporter. Scfg.C16.viewIter_closed is a-priori (every hierarchy): whenever the view model answers, the answer is duplicate-free, contains members only, contains the head and is closed under the view's successors, hence holds every member reachable from the head; Scfg.C16.iterAll_exact (Props/C16Iter.lean) is the same a-priori for __iter__ at every nesting depth: whenever the model answers it yields exactly the covered names (head, members reached from it, and recursively everything covered below each reached region) - nothing foreign, nothing reachable missed. That every member is reachable from its level's head is judged per instance by the specification deciders on the real enumerations."),
     "C09": dict(cat="proof", tech="Lean 4: theorems about the block-cutting model for all streams and tables (contiguous, non-overlapping, gap-free); tables regenerated from source; model and interpreter-metadata specification compared with the real front end on a stdlib corpus under 3.12 and 3.11",
                 text="Scfg.C09.getInstructions_spec / getInstrs_sorted prove that the model of get_instructions returns exactly the known offsets of [begin, end), each once (compared with the real method for every block). "
                      "Scfg.C09.ranges_chain / ranges_cover / fromBytecode_nodup / blockRanges_strict prove, for every instruction stream and every opcode table, that the model of build_basicblocks cuts the stream into contiguous, non-overlapping, gap-free ranges. "
